@@ -87,7 +87,15 @@ func drawRow(t *rapid.T, g int64, allowMalformed bool) c16Row {
 	}
 	kind := rapid.SampledFrom(kinds).Draw(t, "rowKind")
 	k := rapid.Int64Range(0, 5000).Draw(t, "slotK")
+	if rapid.IntRange(0, 7).Draw(t, "farSlot") == 0 {
+		// far in the future: around the timestamps 2^31 (January 2038) and 2^32
+		// (February 2106), and the largest slot a 32-bit second count can reach
+		k = rapid.SampledFrom([]int64{(1<<31 - g) / 300, (1<<31-g)/300 - 1, (1<<31-g)/300 + 1, (1<<32 - g) / 300, (1<<32-g)/300 + 1, 14316556, 14316557}).Draw(t, "farK")
+	}
 	ts := g + 300*k + rapid.Int64Range(0, 299).Draw(t, "within")
+	if ts-g > math.MaxUint32 {
+		ts = g + math.MaxUint32 // the last second of the domain (it lies inside slot 14316557)
+	}
 	switch kind {
 	case "good", "quoted":
 		x := drawReading(t)
